@@ -69,6 +69,32 @@ func mentionsField(info *types.Info, e ast.Node, f *types.Var) bool {
 
 // errReturned: the call is the init of `if err := call; err != nil { return err }` (or assigned and tested next).
 func errReturned(c *Ctx, info *types.Info, call ast.Node) bool {
+	// x, err := call   followed by   if err != nil { return …, err }
+	if as, ok := c.Parent(call).(*ast.AssignStmt); ok && len(as.Rhs) == 1 && len(as.Lhs) >= 1 {
+		if blk, ok := c.Parent(as).(*ast.BlockStmt); ok {
+			if eid, ok := as.Lhs[len(as.Lhs)-1].(*ast.Ident); ok {
+				for i, st := range blk.List {
+					if st == ast.Stmt(as) && i+1 < len(blk.List) {
+						if ifs, ok := blk.List[i+1].(*ast.IfStmt); ok && ifs.Init == nil {
+							if be, ok := ast.Unparen(ifs.Cond).(*ast.BinaryExpr); ok && be.Op == token.NEQ {
+								if id, ok := ast.Unparen(be.X).(*ast.Ident); ok && info.ObjectOf(id) == info.ObjectOf(eid) {
+									for _, s2 := range ifs.Body.List {
+										if r, ok := s2.(*ast.ReturnStmt); ok {
+											for _, res := range r.Results {
+												if rid, ok := ast.Unparen(res).(*ast.Ident); ok && info.ObjectOf(rid) == info.ObjectOf(eid) {
+													return true
+												}
+											}
+										}
+									}
+								}
+							}
+						}
+					}
+				}
+			}
+		}
+	}
 	var p ast.Node = call
 	for i := 0; i < 4 && p != nil; i++ {
 		p = c.Parent(p)
@@ -174,7 +200,7 @@ func ruleSizeAccounting(c *Ctx) {
 		}
 		return call, res
 	}
-	cl := &AffClient{Fields: []*types.Var{v.aofsz}, Ghosts: []string{"S", "L0"}}
+	cl := &AffClient{Fields: []*types.Var{v.aofsz}, Ghosts: []string{"S", "L0", "P", "F"}}
 	// redcon.ReadNextCommand: complete == false implies leftover == packet (nothing consumed; package
 	// contract, every `return false, ...` of the three readers returns the packet it was given). Ghost L0
 	// holds len(packet) before the call; on the !complete edge len(leftover) == L0.
@@ -200,21 +226,78 @@ func ruleSizeAccounting(c *Ctx) {
 		}
 		return st
 	}
+	// Ghosts: S = aofsz at entry + bytes read; P = the file offset of s.aof (starts at S: the caller
+	// positioned the file where aofsz says); F = the size of the file (unknown until end-of-file is seen).
 	cl.Init = func(a *Aff, st *affSpace) *affSpace {
-		return st.assume(a.VarForm(a.Ghost("S")).add(a.VarForm(a.fidx[v.aofsz]), -1))
+		st = st.assume(a.VarForm(a.Ghost("S")).add(a.VarForm(a.fidx[v.aofsz]), -1))
+		return st.assume(a.VarForm(a.Ghost("P")).add(a.VarForm(a.Ghost("S")), -1))
 	}
-	cl.After = func(a *Aff, n ast.Node, st *affSpace) *affSpace {
-		call, res := isRead(n)
-		if call == nil {
-			return st
-		}
-		s := a.Ghost("S")
-		if res != nil {
-			if f, ok := a.Form(res); ok {
-				return st.assignMany(map[int]*affForm{s: a.VarForm(s).add(f, 1)})
+	aofMethod := func(n ast.Node, name string) (*ast.CallExpr, ast.Expr) {
+		var call *ast.CallExpr
+		var res ast.Expr
+		if as, ok := n.(*ast.AssignStmt); ok && len(as.Rhs) == 1 {
+			if cl, ok := ast.Unparen(as.Rhs[0]).(*ast.CallExpr); ok {
+				if se, ok := ast.Unparen(cl.Fun).(*ast.SelectorExpr); ok && se.Sel.Name == name && selField(info, se.X) == v.aof {
+					call = cl
+					if len(as.Lhs) >= 1 {
+						res = as.Lhs[0]
+					}
+				}
 			}
 		}
-		return st.assignMany(map[int]*affForm{s: nil})
+		if call == nil {
+			inspectNoLit(n, func(m ast.Node) bool {
+				if cl, ok := m.(*ast.CallExpr); ok {
+					if se, ok := ast.Unparen(cl.Fun).(*ast.SelectorExpr); ok && se.Sel.Name == name && selField(info, se.X) == v.aof {
+						call = cl
+					}
+				}
+				return true
+			})
+		}
+		return call, res
+	}
+	cl.After = func(a *Aff, n ast.Node, st *affSpace) *affSpace {
+		s, pg, fgh := a.Ghost("S"), a.Ghost("P"), a.Ghost("F")
+		if call, res := isRead(n); call != nil {
+			if res != nil {
+				if f, ok := a.Form(res); ok {
+					return st.assignMany(map[int]*affForm{s: a.VarForm(s).add(f, 1), pg: a.VarForm(pg).add(f, 1)})
+				}
+			}
+			return st.assignMany(map[int]*affForm{s: nil, pg: nil})
+		}
+		if call, _ := aofMethod(n, "Truncate"); call != nil && len(call.Args) == 1 {
+			if f, ok := a.Form(call.Args[0]); ok {
+				return st.assignMany(map[int]*affForm{fgh: f})
+			}
+			return st.assignMany(map[int]*affForm{fgh: nil})
+		}
+		if call, res := aofMethod(n, "Seek"); call != nil && len(call.Args) == 2 {
+			var np *affForm
+			if off, ok := a.Form(call.Args[0]); ok {
+				if wh, ok := info.Types[call.Args[1]]; ok && wh.Value != nil {
+					switch wh.Value.String() {
+					case "0":
+						np = off
+					case "1":
+						np = a.VarForm(pg).add(off, 1)
+					case "2":
+						np = a.VarForm(fgh).add(off, 1)
+					}
+				}
+			}
+			st = st.assignMany(map[int]*affForm{pg: np})
+			if res != nil {
+				if id, ok := ast.Unparen(res).(*ast.Ident); ok {
+					if i, ok := a.idx[info.ObjectOf(id)]; ok {
+						st = st.assignMany(map[int]*affForm{i: a.VarForm(pg)})
+					}
+				}
+			}
+			return st
+		}
+		return st
 	}
 	// os.File.Read returns io.EOF only together with n == 0 (package os contract): on the edge
 	// where the read's error equals io.EOF the byte count is zero
@@ -268,6 +351,8 @@ func ruleSizeAccounting(c *Ctx) {
 				if i, ok := a.idx[readN]; ok {
 					st = st.assume(a.VarForm(i))
 				}
+				// end of file: the file offset is the file size
+				st = st.assume(a.VarForm(a.Ghost("F")).add(a.VarForm(a.Ghost("P")), -1))
 			}
 		}
 		return st
@@ -315,56 +400,7 @@ func ruleSizeAccounting(c *Ctx) {
 	}
 	// boundary = S - len(carry)
 	boundary := a.VarForm(a.Ghost("S")).add(a.VarForm(ci), -1)
-	prove := func(key string, l Loc, e ast.Expr, what, bad string) {
-		f, ok := a.Form(e)
-		if !ok {
-			c.bad(key, e.Pos(), "%s: %s is not an affine expression of the tracked offsets, so it cannot be shown to equal (bytes read) - len(%s): %s", what, exprStr(e), carry.Name(), bad)
-			return
-		}
-		st := a.At(l)
-		if os.Getenv("AFFDBG") != "" {
-			fmt.Fprintln(os.Stderr, "AFFDBG", key, a.Dump(st))
-		}
-		if st.bottom {
-			c.ok(key, e.Pos(), false, "%s: unreachable", what)
-			return
-		}
-		if st.holds(f.add(boundary, -1)) {
-			c.ok(key, e.Pos(), true, "%s: %s = (entry offset + bytes read) - len(%s) on every path (affine invariant, rank %d of %d)", what, exprStr(e), carry.Name(), st.rank(), a.N())
-		} else {
-			c.bad(key, e.Pos(), "%s: %s is not equal to (entry offset + bytes read) - len(%s) on every path: %s", what, exprStr(e), carry.Name(), bad)
-		}
-	}
-	for i, t := range truncs {
-		call := t.Node.(*ast.CallExpr)
-		key := "truncate-offset"
-		if i > 0 {
-			key = fmt.Sprintf("truncate-offset#%d", i+1)
-		}
-		if len(call.Args) != 1 {
-			c.und(key, call.Pos(), "unexpected Truncate arity")
-			continue
-		}
-		prove(key, t, call.Args[0], "Truncate", "the log is cut at an offset that is not the end of the last complete command: applied commands are cut off, or part of the torn tail stays in the file")
-	}
-	for i, sk := range seeks {
-		call := sk.Node.(*ast.CallExpr)
-		key := "seek-offset"
-		if i > 0 {
-			key = fmt.Sprintf("seek-offset#%d", i+1)
-		}
-		if len(call.Args) != 2 {
-			c.und(key, call.Pos(), "unexpected Seek arity")
-			continue
-		}
-		wh, okw := info.Types[call.Args[1]]
-		if !okw || wh.Value == nil || wh.Value.String() != "0" {
-			c.bad(key, call.Pos(), "Seek on the log is not relative to the start of the file (whence %s)", exprStr(call.Args[1]))
-			continue
-		}
-		prove(key, sk, call.Args[0], "Seek", "after the repair the write offset is not the new end of the file: the next append leaves a hole of zero bytes or overwrites commands")
-	}
-	// aofsz at every normal return
+	// at every normal return: aofsz, the file offset and the file size are all at the boundary
 	nret := 0
 	for _, r := range fg.Returns() {
 		rs := r.Node.(*ast.ReturnStmt)
@@ -372,16 +408,27 @@ func ruleSizeAccounting(c *Ctx) {
 			continue
 		}
 		nret++
-		key := "aofsz-at-return"
+		suffix := ""
 		if nret > 1 {
-			key = fmt.Sprintf("aofsz-at-return#%d", nret)
+			suffix = fmt.Sprintf("#%d", nret)
 		}
 		st := a.At(r)
-		f := a.VarForm(a.fidx[v.aofsz]).add(boundary, -1)
-		if st.bottom || st.holds(f) {
-			c.ok(key, rs.Pos(), true, "on normal return aofsz = (entry offset + bytes read) - len(%s)", carry.Name())
-		} else {
-			c.bad(key, rs.Pos(), "on a normal return of loadAOF, aofsz is not (entry offset + bytes read) - len(%s): the server's idea of the log size (used for follower positions, checksums and the next shrink) is wrong after start-up", carry.Name())
+		if os.Getenv("AFFDBG") != "" {
+			fmt.Fprintln(os.Stderr, "AFFDBG return", a.Dump(st))
+		}
+		for _, ob := range []struct {
+			key, what, bad string
+			f         *affForm
+		}{
+			{"aofsz-at-return", "aofsz", "the server's idea of the log size (used for follower positions, checksums and the next shrink) is wrong after start-up", a.VarForm(a.fidx[v.aofsz])},
+			{"file-size-at-return", "the size of the log file", "the log is cut at an offset that is not the end of the last complete command (applied commands are cut off, or part of the torn tail stays in the file), or a torn tail is not cut at all", a.VarForm(a.Ghost("F"))},
+			{"write-offset-at-return", "the file offset of the log", "after the repair the write offset is not the new end of the file: the next append leaves a hole of zero bytes or overwrites the tail of the good log", a.VarForm(a.Ghost("P"))},
+		} {
+			if st.bottom || st.holds(ob.f.add(boundary, -1)) {
+				c.ok(ob.key+suffix, rs.Pos(), true, "on normal return %s = (entry offset + bytes read) - len(%s) on every path (affine invariant)", ob.what, carry.Name())
+			} else {
+				c.bad(ob.key+suffix, rs.Pos(), "on a normal return of loadAOF %s is not (entry offset + bytes read) - len(%s) on every path: %s", ob.what, carry.Name(), ob.bad)
+			}
 		}
 	}
 	if nret == 0 {
@@ -389,21 +436,6 @@ func ruleSizeAccounting(c *Ctx) {
 	}
 	// ordering and error discipline of the repair
 	for _, t := range truncs {
-		for _, sk := range seeks {
-			_ = sk
-		}
-		skip, _ := fg.Reach(PathQuery{From: t, Target: func(l Loc) bool {
-			r, ok := l.Node.(*ast.ReturnStmt)
-			return ok && !returnsError(info, v.fn, r)
-		}, Avoid: func(l Loc) bool {
-			for _, sk := range seeks {
-				if l.Block == sk.Block && l.Idx == sk.Idx {
-					return true
-				}
-			}
-			return false
-		}})
-		c.check(!skip, "truncate-seek-paired", t.Node.Pos(), "no normal return between Truncate and Seek", "loadAOF can return normally after the truncate without seeking: the write offset stays beyond the cut and the next append creates a zero hole")
 		c.check(errReturned(c, info, t.Node), "truncate-error-returned", t.Node.Pos(), "the error of Truncate is returned", "the error of Truncate is dropped")
 	}
 	for _, sk := range seeks {
